@@ -8,6 +8,8 @@ import (
 	"sync"
 	"time"
 
+	"github.com/refraction-networking/uquic/internal/protocol"
+	"github.com/refraction-networking/uquic/internal/wire"
 	"github.com/refraction-networking/uquic/testutils/simnet"
 )
 
@@ -24,6 +26,7 @@ type gnet struct {
 	faults  map[[2]int]faultSpec
 	count   [2]int
 	clean   bool // no faults any more (re-dial phase)
+	mode    string // ok | blackhole (nothing reaches the client) | hsblock (only Initial packets reach the client)
 	pending []*pend
 	seq     int
 	wake    chan struct{}
@@ -75,6 +78,19 @@ func (n *gnet) signal() {
 	case n.wake <- struct{}{}:
 	default:
 	}
+}
+
+// initialPrefix: length of the leading run of Initial packets of a datagram.
+func initialPrefix(data []byte) int {
+	off := 0
+	for off < len(data) && wire.IsLongHeaderPacket(data[off]) && !wire.IsVersionNegotiationPacket(data[off:]) {
+		hdr, pdata, _, err := wire.ParsePacket(data[off:])
+		if err != nil || hdr.Type != protocol.PacketTypeInitial {
+			break
+		}
+		off += len(pdata)
+	}
+	return off
 }
 
 func mutate(kind string, arg int, b []byte) []byte {
@@ -137,6 +153,26 @@ func (n *gnet) SendPacket(p simnet.Packet) error {
 	}
 	// towards the client: queue
 	n.s2c = append(n.s2c, data)
+	if !n.clean {
+		switch n.mode {
+		case "blackhole":
+			n.mu.Unlock()
+			return nil
+		case "hsblock":
+			keep := initialPrefix(data)
+			if keep == 0 {
+				n.mu.Unlock()
+				return nil
+			}
+			if keep < len(data) {
+				n.seq++
+				n.pending = append(n.pending, &pend{due: n.now() + n.latency, seq: n.seq, data: append([]byte(nil), data[:keep]...), orig: data, gidx: idx, fate: "hsblock"})
+				n.mu.Unlock()
+				n.signal()
+				return nil
+			}
+		}
+	}
 	add := func(b []byte, extra time.Duration, fate string) {
 		n.seq++
 		n.pending = append(n.pending, &pend{due: n.now() + n.latency + extra, seq: n.seq, data: b, orig: data, gidx: idx, fate: fate})
